@@ -635,7 +635,7 @@ type SourceOpts struct {
 	NoMutation  bool   // the stream is always exactly Data
 	NoFailure   bool   // the source never fails
 	FlipOnly    bool   // mutations restricted to MutFlip (same length)
-	FailureBias int    // 0..100: probability (%) that a streaming source fails; default 30
+	FailureBias int    // 0..100: approximate probability (%) that a streaming source fails, in steps of 10; default 30
 }
 
 var failCodes = []codes.Code{codes.Unavailable, codes.Internal, codes.InvalidArgument, codes.DataLoss,
@@ -704,7 +704,9 @@ func GenSourceWith(t *rapid.T, label string, data []byte, o SourceOpts) *SourceS
 	if bias == 0 {
 		bias = 30
 	}
-	if s.Kind.Streams() && !o.NoFailure && rapid.IntRange(0, 99).Draw(t, label+"/fails?") < bias {
+	// rapid's integer draws favour small values: decide on the upper end of
+	// a small range, which is close to uniform.
+	if s.Kind.Streams() && !o.NoFailure && rapid.IntRange(0, 9).Draw(t, label+"/fails?") >= 10-(bias+5)/10 {
 		GenFailure(t, label, s)
 	}
 	return s
